@@ -216,6 +216,10 @@ func runC01(c *Ctx) {
 	// ---------- R01.10 persistent-backed: reads see committed state only after a successful load
 	c.Rule("R01.10", "E1", "persistent-backed state: every operation is gated by loadStore()==nil; `loaded` is set only after Load()==nil (a failed load is retried, never papered over)", 11)
 	loadGate(c, "R01.10")
+
+	// ---------- R01.11 a rejected write leaves no trace in the stored resource's metadata
+	c.Import(runC19, "R19.3", "pkg/resource.Finalizers)", "R01.11", "E3", "Finalizers.Add/Remove write only to storage created in the same call: a conflicting or rejected AddFinalizer/RemoveFinalizer/Update attempt (built on a copy of the stored resource) cannot alter what the store still holds", 2)
+
 }
 
 func c01Effects(c *Ctx, rule string, fCreate, fUpdate, fDestroy *ssa.Function) {
